@@ -11,6 +11,7 @@ package main
 import (
 	"bytes"
 	"fmt"
+	"reflect"
 	"sort"
 
 	"github.com/tink-crypto/tink-go/v2/internal/protoserialization"
@@ -373,8 +374,6 @@ func (w *world) perturbStream(r *hlib.Rng) {
 // type URL) go through the fallback proto key.
 func (w *world) fallbackKeys() {
 	o := w.o
-	envFmt := &tinkpb.KeyTemplate{TypeUrl: urlPrefix + "AesGcmKey", Value: []byte{0x10, 0x10}, OutputPrefixType: tinkpb.OutputPrefixType_TINK}
-	_ = envFmt
 	cases := []struct {
 		name string
 		kd   *tinkpb.KeyData
@@ -409,6 +408,7 @@ func (w *world) fallbackKeys() {
 					w.violate("fallback/SerializeKey-fails/"+c.name, "%v", err)
 					continue
 				}
+				w.used["keyserializer|"+reflect.TypeOf(k).String()] = true
 				if d := serEqual(s1, s2); d != "" {
 					w.violate("fallback/serialization-differs/"+c.name, "%s", d)
 				}
